@@ -23,6 +23,7 @@ import (
 //	                                    same hash with another signature section, B++trail decodes with Raw = B,
 //	                                    every examined truncation is refused: "ok hash=<h>"
 //	conc <g> <rounds> tx:<B>|blk:<B> ... <keys>   the items decoded from g goroutines at once: every identity = dsha256(unsigned bytes): "ok"
+//	holdarr tx:<B>|hdr:<B>|blk:<B>|attr:<B> ... <keys>   ToArray()/GetMessage() results kept while more are produced, then re-checked: "ok"
 //	txbig <codelen> <fill> <nonce>      transaction with a code of codelen bytes: "len=<n> ok hash=<h>|err" (MAX_TX_SIZE)
 //	hdr <B> <keys>                      Header.Deserialization (+ the streaming Deserialize must agree): "ok <V> hash=<h> rest=<n>"
 //	hdrprop <B> <alttail> <keys>        property of a valid header encoding (hash ignores bookkeepers / sigData)
@@ -33,7 +34,8 @@ import (
 // <keys> is the public-key oracle for the model (ignored here: the real key library decides).
 type ledgerFam struct {
 	pool     *keyPool
-	sawPanic bool
+	sawPanic bool // a transaction / block decoder panicked on a declared count
+	hdrPanic bool // the header decoder panicked on a declared count
 }
 
 func init() { families["ledgerobj"] = func() hx.Family { return &ledgerFam{} } }
@@ -227,6 +229,7 @@ func (f *ledgerFam) hdrOp(r *hx.Run, raw []byte) string {
 		return fmt.Sprintf("ok %s hash=%s rest=%d", renderHeader(h), hx.Hex(hh[:]), rest)
 	})
 	if res == "panic" {
+		f.hdrPanic = true
 		r.Viol("C02:decoder-panic:Header:"+panicSite(pm), fmt.Sprintf("Header.Deserialization(%s) panics: %s", trunc(hx.Hex(raw), 400), pm))
 	}
 	return res
@@ -282,6 +285,7 @@ func (f *ledgerFam) hdrProp(r *hx.Run, raw, alttail []byte) string {
 		return "ok hash=" + hx.Hex(hh[:])
 	})
 	if res == "panic" {
+		f.hdrPanic = true
 		r.Viol("C02:decoder-panic:Header:"+panicSite(pm), "hdrprop panics: "+pm)
 	}
 	return res
@@ -468,6 +472,109 @@ func (f *ledgerFam) concOp(r *hx.Run, op []string) string {
 	return res
 }
 
+// holdArr: holdarr tx:<B>|hdr:<B>|blk:<B>|attr:<B> ... <keys>. Every item is a canonical encoding; it is decoded, its ToArray()
+// (and GetMessage() for headers) result is KEPT, then all arrays are produced again in reverse order and from two goroutines,
+// and every kept slice must still equal the encoding. Outcome "ok".
+func (f *ledgerFam) holdArr(r *hx.Run, op []string) string {
+	type enc struct {
+		name string
+		want []byte
+		make func() []byte
+	}
+	var encs []enc
+	for _, t := range op[1 : len(op)-1] {
+		i := strings.IndexByte(t, ':')
+		if i < 0 {
+			return "bad-op"
+		}
+		raw := hx.UnHex(t[i+1:])
+		switch t[:i] {
+		case "tx":
+			tx, err := decodeTx(raw)
+			if err != nil {
+				return "bad-op"
+			}
+			encs = append(encs, enc{"Transaction.ToArray", raw, tx.ToArray})
+		case "hdr":
+			h := &types.Header{}
+			if err := h.Deserialization(common.NewZeroCopySource(append([]byte{}, raw...))); err != nil {
+				return "bad-op"
+			}
+			encs = append(encs, enc{"Header.ToArray", raw, h.ToArray})
+			msg := append([]byte{}, h.GetMessage()...)
+			encs = append(encs, enc{"Header.GetMessage", msg, h.GetMessage})
+		case "blk":
+			b := &types.Block{}
+			if err := b.Deserialization(common.NewZeroCopySource(append([]byte{}, raw...))); err != nil {
+				return "bad-op"
+			}
+			encs = append(encs, enc{"Block.ToArray", raw, b.ToArray})
+		case "attr":
+			var a types.TxAttribute
+			if err := a.Deserialize(bytes.NewReader(raw)); err != nil {
+				return "bad-op"
+			}
+			encs = append(encs, enc{"TxAttribute.ToArray", raw, a.ToArray})
+		default:
+			return "bad-op"
+		}
+	}
+	res, pm := guarded(func() string {
+		held := make([][]byte, len(encs))
+		for i, e := range encs {
+			held[i] = e.make()
+		}
+		for i := len(encs) - 1; i >= 0; i-- {
+			encs[i].make()
+		}
+		for i, e := range encs {
+			if !bytes.Equal(held[i], e.want) {
+				r.Viol("C02:encoding-changed-later:"+e.name, fmt.Sprintf("the slice returned by %s (%s) reads %s after later encodings", e.name, trunc(hx.Hex(e.want), 100), trunc(hx.Hex(held[i]), 100)))
+				return "FAIL:changed"
+			}
+		}
+		var wg sync.WaitGroup
+		bad := make(chan string, 4)
+		for w := 0; w < 2; w++ {
+			wg.Add(1)
+			go func(w int) {
+				defer wg.Done()
+				defer func() {
+					if e := recover(); e != nil {
+						select {
+						case bad <- fmt.Sprint("panic while encoding: ", e):
+						default:
+						}
+					}
+				}()
+				for round := 0; round < 30; round++ {
+					k := (round + w) % len(encs)
+					a := encs[k].make()
+					encs[(k+1)%len(encs)].make()
+					if !bytes.Equal(a, encs[k].want) {
+						select {
+						case bad <- fmt.Sprintf("goroutine %d round %d: the slice returned by %s changed while another value was encoded", w, round, encs[k].name):
+						default:
+						}
+						return
+					}
+				}
+			}(w)
+		}
+		wg.Wait()
+		close(bad)
+		for msg := range bad {
+			r.Viol("C02:encoding-changed-under-concurrent-encode", msg)
+			return "FAIL:concurrent"
+		}
+		return "ok"
+	})
+	if res == "panic" {
+		r.Viol("C02:encoder-panic", "holdarr panics: "+pm)
+	}
+	return res
+}
+
 func bigTx(n int, fill byte, nonce uint32) []byte {
 	tx := &types.Transaction{TxType: types.Invoke, Nonce: nonce, Payload: &payload.InvokeCode{Code: bytes.Repeat([]byte{fill}, n)}}
 	sink := common.NewZeroCopySink(nil)
@@ -493,6 +600,8 @@ func (f *ledgerFam) Exec(r *hx.Run, op []string) string {
 		return f.txProp(r, hx.UnHex(op[1]), hx.UnHex(op[2]), hx.UnHex(op[3]))
 	case "conc":
 		return f.concOp(r, op)
+	case "holdarr":
+		return f.holdArr(r, op)
 	case "txbig":
 		n, _ := strconv.Atoi(op[1])
 		nonce, _ := strconv.Atoi(op[3])
@@ -714,6 +823,26 @@ func (f *ledgerFam) Gen(r *hx.Run) {
 			r.Do(fmt.Sprintf("txm %s keys=-", hx.Hex(raw2)))
 		}
 	}
+	// 1b. bookkeeper / signature counts of a header replaced by huge declared counts (a decoder must not panic, whatever it
+	// reserves from the count): these come before any random corruption of headers
+	{
+		h0 := f.genHeader(r)
+		h0.Bookkeepers, h0.SigData = nil, nil
+		full := h0.ToArray() // unsigned part, then the two zero counts
+		ul := len(full) - 2
+		for _, c := range []uint64{^uint64(0), 1 << 63, 1<<63 - 1, 1 << 62, 1 << 60, 1 << 48} {
+			for pos := 0; pos < 2 && !f.hdrPanic; pos++ {
+				newCase("hdr-count")
+				m := append([]byte{}, full[:ul]...)
+				if pos == 1 {
+					m = append(m, 0) // no bookkeepers, huge signature count
+				}
+				m = append(append(m, varuintBytes(c, 3)...), r.Rng.Bytes(r.Rng.Intn(40))...)
+				out := r.Do(fmt.Sprintf("hdr %s %s", hx.Hex(m), keyOracle(m)))
+				r.Nontrivial(fmt.Sprintf("hdr-count/%d/%d/%s", c, pos, outClass(out)))
+			}
+		}
+	}
 	// 2. valid transactions
 	ntx := r.Pick(500, 5000)
 	for i := 0; i < ntx; i++ {
@@ -821,6 +950,37 @@ func (f *ledgerFam) Gen(r *hx.Run) {
 		r.Do(fmt.Sprintf("conc %d %d %s %s", []int{4, 6, 8}[r.Rng.Intn(3)], r.Pick(25, 60), strings.Join(toks, " "), keyOracle(all...)))
 		r.Nontrivial(fmt.Sprintf("conc/%d", i))
 	}
+	// encoders hand out byte slices: results held while more are produced (also from two goroutines), then re-checked
+	for i := 0; i < r.Pick(6, 100); i++ {
+		newCase("holdarr")
+		var toks []string
+		var all [][]byte
+		for j := 0; j < 3; j++ {
+			raw := serTx(f.genTx(r, 3))
+			all = append(all, raw)
+			toks = append(toks, "tx:"+hx.Hex(raw))
+		}
+		for j := 0; j < 2; j++ {
+			raw := f.genHeader(r).ToArray()
+			all = append(all, raw)
+			toks = append(toks, "hdr:"+hx.Hex(raw))
+		}
+		blk := &types.Block{Header: f.genHeader(r)}
+		for k := 0; k < 2; k++ {
+			if t, err := decodeTx(serTx(f.genTx(r, 2))); err == nil {
+				blk.Transactions = append(blk.Transactions, t)
+			}
+		}
+		blk.RebuildMerkleRoot()
+		braw := blk.ToArray()
+		all = append(all, braw)
+		toks = append(toks, "blk:"+hx.Hex(braw))
+		for j := 0; j < 2; j++ {
+			a := types.NewTxAttribute(types.Script, r.Rng.Bytes(1+r.Rng.Intn(40)))
+			toks = append(toks, "attr:"+hx.Hex(a.ToArray()))
+		}
+		r.Do(fmt.Sprintf("holdarr %s %s", strings.Join(toks, " "), keyOracle(all...)))
+	}
 	// 3. sizes around MAX_TX_SIZE (the empty-signature transaction has 54 bytes + code + its var-uint length)
 	for _, total := range []int{types.MAX_TX_SIZE - 1, types.MAX_TX_SIZE, types.MAX_TX_SIZE + 1} {
 		newCase("tx-size")
@@ -857,13 +1017,13 @@ func (f *ledgerFam) Gen(r *hx.Run) {
 		}
 		r.Do(fmt.Sprintf("hdrprop %s %s %s", hx.Hex(raw), hx.Hex(alttail), keys))
 		r.Nontrivial(fmt.Sprintf("hdr/%d/%d/%s", len(h.Bookkeepers), len(h.SigData), outClass(out)))
-		for j := 0; j < r.Pick(5, 10); j++ {
+		for j := 0; j < r.Pick(5, 10) && !f.hdrPanic; j++ { // (no random corruption of a decoder that already panicked on a count)
 			m := mutate(r, raw)
 			out := r.Do(fmt.Sprintf("hdr %s %s", hx.Hex(m), keyOracle(m)))
 			r.Hist("hdr.malformed." + outClass(out))
 			r.Nontrivial(fmt.Sprintf("hdrm/%s/%d", outClass(out), lenBucket(len(m))))
 		}
-		if i%4 == 0 { // bookkeeper / signature counts replaced by boundary counts
+		if i%4 == 0 && !f.hdrPanic { // bookkeeper / signature counts replaced by boundary counts
 			ul := len(h.GetMessage())
 			c := bigCounts[r.Rng.Intn(len(bigCounts))]
 			m := append(append(append([]byte{}, raw[:ul]...), varuintBytes(c, r.Rng.Intn(4))...), r.Rng.Bytes(r.Rng.Intn(40))...)
@@ -924,7 +1084,7 @@ func (f *ledgerFam) Gen(r *hx.Run) {
 			rraw := re.ToArray()
 			r.Do(fmt.Sprintf("blkbad root %s %s", hx.Hex(rraw), keyOracle(rraw)))
 		}
-		for j := 0; j < r.Pick(4, 8) && !f.sawPanic; j++ {
+		for j := 0; j < r.Pick(4, 8) && !f.sawPanic && !f.hdrPanic; j++ {
 			m := mutate(r, raw)
 			out := r.Do(fmt.Sprintf("blk %s %s", hx.Hex(m), keyOracle(m)))
 			r.Hist("blk.malformed." + outClass(out))
